@@ -66,7 +66,9 @@ def F1_forms(t, unicode_mode, form, ign, fi, fm, fs, fx, fa, single, via_list):
         pat = other_t
     else:
         pat = LitPat(native_t if form == 2 else other_t)
-        pat.flags = F | (U if (form == 2) == unicode_mode else 0)
+        is_text_pattern = ((form == 2) == unicode_mode)
+        # CPython: a str pattern carries UNICODE unless compiled with ASCII; a bytes pattern never does
+        pat.flags = F | (U if (is_text_pattern and not fa) else 0)
     arg = pat if single else [pat]
     with patched(SB, Expecter=_Rec, re=FakeRe()):
         if via_list:
@@ -172,7 +174,39 @@ def F3_exact_forms(t, unicode_mode, astext, single, k):
     return 3 if (astext and not unicode_mode) else 2
 
 
+def R_real_re(fi, fm, fs, fx, fa, unicode_mode, form, ign):
+    """concrete cross-check with CPython's real `re` (no stubs): a compiled pattern of either string type, with
+    any combination of the five flags, given to either mode, finds the same occurrence as the native form"""
+    F = _flags(fi, fm, fs, fx, fa)
+    text = 'x\nOK 1\nok 2\n'
+    pat_t = 'ok.\\d$' if not fx else 'ok . \\d $'
+    sp = ScriptedSpawn([('data', text if unicode_mode else text.encode())], kind='t' if unicode_mode else 'b')
+    sp.ignorecase = ign
+    if tracing():
+        return 1
+    import io
+    sp.buffer_type = io.StringIO if unicode_mode else io.BytesIO
+    sp._before, sp._buffer = sp.buffer_type(), sp.buffer_type()
+    native = _re.compile(pat_t if unicode_mode else pat_t.encode(), F)
+    other = _re.compile(pat_t.encode() if unicode_mode else pat_t, F)
+    given = native if form == 0 else other
+    with frozen_time():
+        i = sp.expect([given, TIMEOUT], timeout=1)
+    m = native.search(text if unicode_mode else text.encode())
+    if m is None:
+        return 2 if i == 1 else 0
+    if i != 0 or sp.match.span() != m.span() or sp.after != m.group(0):
+        return 0
+    return 3
+
+
 def dry_runs():
+    import itertools
+    for bits in itertools.product((False, True), repeat=5):
+        for um in (False, True):
+            for form in (0, 1):
+                yield 'R_real_re', dict(fi=bits[0], fm=bits[1], fs=bits[2], fx=bits[3], fa=bits[4], unicode_mode=um,
+                                        form=form, ign=False)
     for form in range(4):
         for um in (False, True):
             yield 'F1_forms', dict(t='a.b', unicode_mode=um, form=form if not (um and form == 1) else 0, ign=True, fi=True,
